@@ -243,6 +243,7 @@ type World struct {
 	Ops                int
 	taskPanicReported  map[int]bool
 	stuck              []*opHandle
+	cacheKeys          map[int][2][]string
 	truncFailed        map[int]bool // nodes on which a synchronous truncation returned a real error (production exits there)
 }
 
